@@ -114,7 +114,7 @@ type pctx struct {
 	stop    bool // deadline reached
 	// panics of the current HTTP path: site -> method -> best violation
 	httpPanics map[string]map[string]ranked
-	tick    int
+	tick       int
 }
 
 func newPctx(res *core.Result, part string) *pctx {
@@ -448,7 +448,7 @@ func famAggregation() family {
 	pos := [][]byte{allBytes(), a, a, a, a, {0x01}, {0x67}, {0x00}, {0x05}, {0x67}, {0x00}, {0x00}}
 	return family{sub: "rtp-pure-av1-h264", shapes: []shape{{}}, pos: pos,
 		codecs: []string{"", "video/AV1", "video/H264"},
-		desc: fmt.Sprintf("plain header x payload byte 0 over all 256 values x bytes 1-4 in {%s} x bytes 5-11 = 01,67,00,05,67,00,00 x every prefix length 0..24 (AV1 aggregation header/LEB128 lengths; H264 STAP/MTAP/FU 16-bit lengths)", hexs(a))}
+		desc:   fmt.Sprintf("plain header x payload byte 0 over all 256 values x bytes 1-4 in {%s} x bytes 5-11 = 01,67,00,05,67,00,00 x every prefix length 0..24 (AV1 aggregation header/LEB128 lengths; H264 STAP/MTAP/FU 16-bit lengths)", hexs(a))}
 }
 
 // prefixes enumerates the distinct prefixes of the packets of one shape whose
